@@ -72,4 +72,15 @@ theorem ratOps_lawful : LawfulOps ratOps where
   le_ofRat := fun _ _ => rfl
   isOne_ofRat := fun _ => rfl
 
+
+theorem ratNatPow_eq_pow (x : Rat) (n : Nat) : ratNatPow x n = x ^ n := by
+  induction n with
+  | zero => simp [ratNatPow]
+  | succ k ih => simp [ratNatPow, ih, pow_succ]
+
+/-- `pow` of `ratOps` at a natural constant is the monomial -/
+theorem ratOps_pow (x : Rat) (n : Nat) : ratOps.pow x (ratOps.ofRat n) = x ^ n := by
+  have h := natCast_den_num n
+  simp only [ratOps, ratPow, id, h.1, and_self, if_true, h.2, ratNatPow_eq_pow]
+
 end Wntr.Aml
